@@ -371,8 +371,7 @@ Definition try_without (te : tyenv) (funcs : list prov) (without : list nat) : l
 (* ---------- computeDependenciesAndInclusion (after reorder) ---------- *)
 Definition init_marks (te : tyenv) (p : prov) : prov :=
   let s := p_s p in
-  let p1 := set_mc (match s_mustConsume s with Some _ => true | None => false end)
-                   (match s_consOpt s with None => true | Some _ => false end) p in
+  let p1 := set_mc (match s_mustConsume s with Some _ => true | None => false end) true p in
   if s_required s then p1
   else if d_desired (s_d s) then p1
   else match f_out (s_flows s) with
